@@ -322,6 +322,9 @@ type pdesc struct {
 	Parallel bool         `json:"parallel"`
 	PreTask  bool         `json:"preTask"`
 	Script   []drive.Stim `json:"script"`
+	// Loop (TestC14Loop): the task behind the catch event decides (result
+	// "again") whether the token returns to the catch event
+	Loop bool `json:"loop,omitempty"`
 }
 
 func buildProc(d pdesc) *gen.Graph {
@@ -332,6 +335,12 @@ func buildProc(d pdesc) *gen.Graph {
 		t := b.Add(gen.KTask)
 		b.Connect(cur, t)
 		cur = t
+	}
+	var mrg *gen.Node
+	if d.Loop {
+		mrg = b.Add(gen.KXor)
+		b.Connect(cur, mrg)
+		cur = mrg
 	}
 	c := b.Add(gen.KCatch)
 	c.ParallelMul = d.Parallel
@@ -349,6 +358,16 @@ func buildProc(d pdesc) *gen.Graph {
 	t := b.Add(gen.KTask)
 	b.Connect(c, t)
 	en := b.Add(gen.KEnd)
+	if d.Loop {
+		t.Results = []string{"again"}
+		x := b.Add(gen.KXor)
+		b.Connect(t, x)
+		back := b.Connect(x, mrg)
+		back.Formal, back.Cond = true, gen.BoolVar("again")
+		out := b.Connect(x, en)
+		x.Default = out.ID
+		return b.G
+	}
 	b.Connect(t, en)
 	return b.G
 }
